@@ -15,7 +15,7 @@ func init() {
 	register(&PropMeta{
 		ID:          "C18",
 		Level:       "other",
-		Explanation: "Decides the structural clauses of bot legality: (R1) every action the bot submits is guarded by the hand allowing exactly that action (HasAction) or is the arm of the switch on the chosen action string whose label equals the method; the only fall-through is fold, as the complement of the other five wager actions; (R2) the switch tag derives only from elements of the player's own allowed-action list (no string constant or other source can reach the chooser's results); (R3) on every path of the move request and of the chooser exactly one action is submitted or handed to exactly one timer / the chooser, and none only when no action is allowed; (R4) bet and raise amounts are the whole stack under 'stack ≤ minimum' or rand.Int63n(stack − minimum) + minimum with minimum = mini-bet (bet) / current wager + previous raise size (raise), the draw's argument being positive by the dominating comparison; pay amounts are the posted ante / blind of the position; (R5) the Actions methods forward the stored id to the same-named adapter method and the engine adapter to the same-named engine method with arguments in order; (R6) the move request is dominated by status playing, own hand index found, player non-nil, non-empty allowed actions and the staleness filter. NOT decided: legality of the amount under pokerface's raise/all-in conversion rules; that bot tables terminate.",
+		Explanation: "Decides the structural clauses of bot legality: (R1) every action the bot submits is guarded by the hand allowing exactly that action (HasAction) or is the arm of the switch on the chosen action string whose label equals the method; the only fall-through is fold, as the complement of the other five wager actions; (R2) the switch tag derives only from elements of the player's own allowed-action list (no string constant or other source can reach the chooser's results); (R3) on every path of the move request and of the chooser exactly one action is submitted or handed to exactly one timer / the chooser, and none only when no action is allowed; (R4) bet and raise amounts are the whole stack under 'stack ≤ minimum' or rand.Int63n(stack − minimum) + minimum with minimum = mini-bet (bet) / current wager + previous raise size (raise), the draw's argument being positive by the dominating comparison; pay amounts are the posted ante / blind of the position; (R5) the Actions methods forward the stored id to the same-named adapter method and the engine adapter to the same-named engine method with arguments in order; (R6) the move request is dominated by status playing, own hand index found, player non-nil, non-empty allowed actions and the staleness filter. (R7) the bot's time bank is assigned only by the constructor and no time-bank operation lies on a path into the stale exit of the view handler, so a planned (humanized) move is neither orphaned nor cancelled by a view that is then discarded. NOT decided: legality of the amount under pokerface's raise/all-in conversion rules; that bot tables terminate.",
 		Rules: map[string]string{
 			"R1": "guard ↔ action agreement for every submitted action",
 			"R2": "provenance of the chosen action: only elements of the allowed-action list",
@@ -23,6 +23,7 @@ func init() {
 			"R4": "bet/raise amount clamp shape and positivity of the random draw; pay amounts",
 			"R5": "own id: Actions → adapter → engine forwarding, same name, arguments in order",
 			"R6": "silence guards before the move request; a view with the same time stamp counts as stale; the time of every non-stale view is remembered before acting",
+			"R7": "timer discipline: the runner's time bank is created once, by the constructor; a view discarded by the staleness filter performs no time-bank operation (the pending move survives a re-published, unchanged hand state)",
 		},
 		Assumptions: []string{"pokerface accepts any amount between the stated minimum and the stack for bet/raise"},
 		Run:         checkC18,
@@ -258,6 +259,9 @@ func checkC18(c *Ctx) {
 
 	// ---------------- R5 forwarding
 	checkActionForwarding(c)
+
+	// ---------------- R7 timer discipline (shared with C19.R5)
+	checkRunnerTimer(c, "R7", bot, entry)
 
 	// ---------------- R6 silence guards
 	if entry != nil {
